@@ -1361,7 +1361,13 @@ impl BPlusTree<File> {
 
 impl<F: VfsFile> BPlusTree<F> {
 	pub fn with_file(file: F, compare: Arc<dyn Comparator>) -> Result<Self> {
-		let storage_size = file.size()?;
+		// A tree that has been created completely holds its header page and its root page.
+		// A shorter file is what a crash between those two writes (they are synced together
+		// only afterwards) leaves behind: nothing has been stored in it yet, start over.
+		let storage_size = match file.size()? {
+			n if n < 2 * PAGE_SIZE as u64 => 0,
+			n => n,
+		};
 
 		let (header, cache) = if storage_size == 0 {
 			// Initialize a new B+Tree
